@@ -527,7 +527,63 @@ func reachesDangling(g *refgraph.Graph, a *refgraph.ATree) bool {
 }
 
 func runC02(c *Ctx) { runC02C03(c, "C02") }
-func runC03(c *Ctx) { runC02C03(c, "C03") }
+func runC03(c *Ctx) {
+	runC02C03(c, "C03")
+	c03SharedCache(c)
+}
+
+// c03SharedCache: ExpandSchema(schema, root, cache) with ONE caller-held cache used for calls against DIFFERENT
+// in-memory roots at the same (pseudo) location: first a twin of the world in which every definition is
+// self-referential, then the acyclic world itself. The root handed to each call is the root of that call, so the
+// acyclic world's schemas must come out $ref-free and equal to what a call with a cache of its own gives.
+func c03SharedCache(c *Ctx) {
+	n := c.N(150, 3000)
+	opts := refgraph.Options{Docs: 1, Defs: 4, RefP: 0.7}
+	for i := 0; i < n; i++ {
+		w := refgraph.Generate(c.Rng, opts)
+		g := w.BuildGraph()
+		if len(g.Missing) > 0 || g.Cyclic() {
+			continue
+		}
+		calls := rootElements(w, "definitions", "schemaRoot")
+		if len(calls) == 0 {
+			continue
+		}
+		twin := w.Clone()
+		root := w.Docs[w.Root]
+		defs, _ := root.Get("definitions")
+		tdefs := wire.ObjV()
+		for _, m := range defs.O {
+			self := "#/definitions/" + refgraph.PtrEscape(m.K)
+			tdefs = tdefs.Set(m.K, wire.ObjV(wire.Member{K: "properties", V: wire.ObjV(wire.Member{K: "again", V: wire.ObjV(wire.Member{K: "$ref", V: wire.StrV(self)})})}))
+		}
+		twin.Docs[w.Root] = root.Set("definitions", tdefs)
+		c.Hit("shared-cache-sequence")
+		cache := newTCache(&tracer{})
+		for _, call := range rootElements(twin, "definitions", "schemaRoot") {
+			runEntry(twin, call, cache, nil)
+		}
+		for _, call := range calls {
+			own := runEntry(w, call, nil, nil)
+			got := runEntry(w, call, cache, nil)
+			cs := map[string]interface{}{"world": worldJSON(w), "earlier-root": worldJSON(twin), "call": call, "entry": "ExpandSchema with one cache, two roots"}
+			switch {
+			case got.Panic != "" || got.Hang:
+				c.Fail(Failure{Kind: "crash", Sig: "C04:panic", What: "ExpandSchema panicked or hung: " + got.Panic, Case: cs})
+			case own.Err != "" || own.Panic != "" || own.Hang:
+				c.Hit("shared-cache:reference-call-fails")
+			case got.Err != "":
+				c.Fail(Failure{Kind: "oracle", Sig: "C08:spurious-error", What: "every $ref is resolvable but ExpandSchema fails: " + got.Err, Case: cs})
+			case strings.Contains(got.Out, `"$ref"`) && !strings.Contains(own.Out, `"$ref"`): // (a "$ref" member of an example is data)
+				c.Fail(Failure{Kind: "oracle", Sig: "C03:ref-remains-in-acyclic", What: "an acyclic root, expanded with a cache an earlier call (other root) has used, keeps a $ref", Case: cs, Impl: clip(got.Out)})
+			case got.Out != own.Out:
+				c.Fail(Failure{Kind: "oracle", Sig: "C03:depends-on-earlier-call", What: "the expansion differs from the one made with a cache of its own", Case: cs, Impl: clip(got.Out), Model: clip(own.Out)})
+			default:
+				c.Hit("shared-cache:agrees")
+			}
+		}
+	}
+}
 
 // ---- shrinking of failing worlds (delta debugging over documents, entries and sub-trees) ----
 
